@@ -24,6 +24,31 @@ def replay(spec):
     corr = {"fourth_order_central_difference": 0 * J, "central_difference": h * h * d3 / 6,
             "forward_difference": h * d2 / 2, "backward_difference": -h * d2 / 2}[method]
     problems = []
+    if spec.get("kind") == "real_model":
+        from .util import unfrac
+        v = unfrac(spec.get("values", {}))
+        pts = [(float(v.get("kf", 0.6)) or 0.6, float(v.get("kr", 0.9)) or 0.9, float(v.get("kd", 0.3)) or 0.3, float(v.get("A", 1.0)), float(v.get("B", 3.0)))]
+        pts += [(0.6, 0.9, 0.3, 1.0, 3.0), (0.6, 0.9, 0.3, 4.0, 0.5), (2.0, 0.25, 1.5, 0.0, 2.0)]       # backward flux, forward flux, A exhausted
+        for kf, kr, kd, A_, B_ in pts:
+            Mr = Model(species=["A", "B"], parameters=[("kf", kf), ("kr", kr), ("kd", kd)],
+                       reactions=[(["A"], ["B"], "general", {"rate": "kf*A - kr*B"}), (["B"], [], "massaction", {"k": "kd"})])
+            order = Mr.get_species_list()
+            ia, ib = order.index("A"), order.index("B")
+            x = [0.0, 0.0]
+            x[ia], x[ib] = A_, B_
+            wantJ = np.zeros((2, 2))
+            wantJ[ia, ia], wantJ[ia, ib], wantJ[ib, ia], wantJ[ib, ib] = -kf, kr, kf, -kr - kd
+            gj = np.asarray(py_get_jacobian(Mr, list(x), method=method), dtype=float)
+            if not np.allclose(gj, wantJ, rtol=0, atol=1e-7):
+                problems.append("kf=%s kr=%s kd=%s at A=%s B=%s: jacobian[%s] = %s, analytic %s" % (kf, kr, kd, A_, B_, method, gj.tolist(), wantJ.tolist()))
+            for pn, wz in (("kf", {ia: -A_, ib: A_}), ("kr", {ia: B_, ib: -B_}), ("kd", {ia: 0.0, ib: -B_})):
+                gz = np.asarray(py_get_sensitivity_to_parameter(Mr, list(x), pn, method=method), dtype=float)
+                if not np.allclose(gz, [wz[0], wz[1]], rtol=0, atol=1e-7):
+                    problems.append("kf=%s kr=%s kd=%s at A=%s B=%s: d f/d %s [%s] = %s, analytic %s" % (kf, kr, kd, A_, B_, pn, method, gz.tolist(), [wz[0], wz[1]]))
+            now = dict(Mr.get_parameter_dictionary())
+            if abs(now["kf"] - kf) > 1e-12 or abs(now["kr"] - kr) > 1e-12 or abs(now["kd"] - kd) > 1e-12:
+                problems.append("parameters after the queries: %s" % now)
+        return {"reproduced": bool(problems), "observed": problems[:3], "expected": "analytic derivatives of the signed rate law"}
     if spec.get("kind") == "history":
         # a query, then new parameter values, then a second query on the same model object
         py_get_sensitivity_to_parameter(M, [a, b], "k1", method=method)
